@@ -199,7 +199,13 @@ func (h *Handler) HandleMessage(msg stanza.Message, t xmlstream.TokenReadEncoder
 				return nil
 			}
 
-			c <- struct{}{}
+			// The channel is buffered and every channel is signaled at most once
+			// (it was just removed from the map), so this never blocks the
+			// handler, even if the sender has given up in the meantime.
+			select {
+			case c <- struct{}{}:
+			default:
+			}
 			return nil
 		case "request":
 			msg.From, msg.To = msg.To, msg.From
@@ -253,18 +259,15 @@ func (h *Handler) SendMessage(ctx context.Context, s *xmpp.Session, r xml.TokenR
 //
 // SendMessageElement is safe for concurrent use by multiple goroutines.
 func (h *Handler) SendMessageElement(ctx context.Context, s *xmpp.Session, payload xml.TokenReader, msg stanza.Message) error {
-	if h.sent == nil {
-		h.m.Lock()
-		h.sent = make(map[string]chan struct{})
-		h.m.Unlock()
-	}
-
 	if msg.ID == "" {
 		msg.ID = attr.RandomID()
 	}
 
-	c := make(chan struct{})
+	c := make(chan struct{}, 1)
 	h.m.Lock()
+	if h.sent == nil {
+		h.sent = make(map[string]chan struct{})
+	}
 	h.sent[msg.ID] = c
 	h.m.Unlock()
 
@@ -274,6 +277,9 @@ func (h *Handler) SendMessageElement(ctx context.Context, s *xmpp.Session, paylo
 	}
 	err := s.SendElement(ctx, r, msg.StartElement())
 	if err != nil {
+		h.m.Lock()
+		delete(h.sent, msg.ID)
+		h.m.Unlock()
 		return err
 	}
 
@@ -284,7 +290,6 @@ func (h *Handler) SendMessageElement(ctx context.Context, s *xmpp.Session, paylo
 		h.m.Lock()
 		delete(h.sent, msg.ID)
 		h.m.Unlock()
-		close(c)
 		return ctx.Err()
 	}
 }
